@@ -533,6 +533,8 @@ func checkC06(p *Prog, l *Ledger) {
 	// path to the operation (rules shared with C03 — undefined name, redeclaration — and C04 — callee kind, arity)
 	l.As(map[string]string{"C03/S2-scope-wiring": "C06/S0-fault-detected/names", "C04/S3-": "C06/S0-fault-detected/"}, func() {
 		checkScopeWiring(cs, l)
+		checkClosureWiring(cs, l, "C03/S2-scope-wiring")
+		checkDeclarationBinding(cs, l, "C03/S2-scope-wiring/declaration")
 		checkCallProtocol(cs, l)
 	})
 	// … and C02's operator table (type mismatch, zero divisor, negative shift count are reported before the operation)
@@ -687,7 +689,7 @@ func checkC06(p *Prog, l *Ledger) {
 	checkC09(p, scratch)
 	nl := 0
 	for _, o := range scratch.Obls {
-		if strings.HasPrefix(o.Rule, "C09/S4") || strings.HasPrefix(o.Rule, "C09/S0") {
+		if strings.HasPrefix(o.Rule, "C09/S4") || strings.HasPrefix(o.Rule, "C09/S0") || strings.HasPrefix(o.Rule, "C09/S1") {
 			if o.Status != Discharged {
 				nl++
 				l.Violate("C06/S4-token-lines", o.Construct, o.Pos, "token line numbers are wrong, so the diagnostic names the wrong line: "+o.Why)
